@@ -102,6 +102,7 @@ type renderer struct {
 	elig     int             // eligible arguments seen so far
 	eligN    int             // total number of eligible arguments (second pass)
 	identDcl strings.Builder // declarations of identifier arguments
+	mutArm   string          // identifier whose variable the next argument must zero (Features.MutAfter)
 }
 
 // ident marks expression e as an eligible argument; the chosen one is passed
@@ -121,10 +122,26 @@ func (r *renderer) ident(e string) string {
 		return e
 	}
 	fmt.Fprintf(&r.identDcl, "\t%s := %s\n", name, e)
+	if r.p.F.MutAfter {
+		r.mutArm = name
+	}
 	return name
 }
 
+// resName is the name of the variable receiving result j.
+func resName(p *Program, j int) string {
+	if j == 0 && p.F.ResultName != "" {
+		return p.F.ResultName
+	}
+	return fmt.Sprintf("r%d", j)
+}
+
 func (r *renderer) tr(e string) string {
+	if r.mutArm != "" && e != r.mutArm {
+		// this argument's evaluation zeroes the variable used by the previous (identifier) argument
+		e = "probe.Mut(func() { probe.Zero(&" + r.mutArm + ") }, " + e + ")"
+		r.mutArm = ""
+	}
 	if !r.p.F.Wrap {
 		return e
 	}
@@ -258,7 +275,7 @@ func (r *renderer) flowCall(decl *strings.Builder) string {
 	}
 	// result variables
 	for j, ti := range f.Results {
-		fmt.Fprintf(decl, "\tvar r%d %s = %s\n", j, GoType(f.Types[ti], ti), MkExpr(f.Types[ti], ti, fmt.Sprintf("probe.Sentinel(%d)", j)))
+		fmt.Fprintf(decl, "\tvar %s %s = %s\n", resName(p, j), GoType(f.Types[ti], ti), MkExpr(f.Types[ti], ti, fmt.Sprintf("probe.Sentinel(%d)", j)))
 	}
 	ctx := r.tr("in.Ctx")
 	var opts []string
@@ -282,7 +299,7 @@ func (r *renderer) flowCall(decl *strings.Builder) string {
 				if p.F.Enclose == "generic" || p.F.Enclose == "method" {
 					vs = append(vs, r.tr(fmt.Sprintf("pr%d", j)))
 				} else {
-					vs = append(vs, r.tr(fmt.Sprintf("&r%d", j)))
+					vs = append(vs, r.tr("&"+resName(p, j)))
 				}
 			}
 			opts = append(opts, c+".Results("+strings.Join(vs, ", ")+")")
@@ -327,7 +344,7 @@ func (r *renderer) flowCall(decl *strings.Builder) string {
 			if t.Fallback {
 				var vs []string
 				for j, to := range t.Out {
-					vs = append(vs, r.tr(MkExpr(f.Types[to], to, fmt.Sprintf("probe.Fallback(%q, %d)", id, j))))
+					vs = append(vs, r.tr(r.ident(MkExpr(f.Types[to], to, fmt.Sprintf("probe.Fallback(%q, %d)", id, j)))))
 				}
 				args = append(args, c+".FallbackWith("+strings.Join(vs, ", ")+")")
 			}
@@ -606,7 +623,7 @@ func Render(p *Program, pkg, modPath string) string {
 	if p.Flow != nil {
 		var hs []string
 		for j, ti := range p.Flow.Results {
-			hs = append(hs, HashExpr(p.Flow.Types[ti], ti, fmt.Sprintf("r%d", j)))
+			hs = append(hs, HashExpr(p.Flow.Types[ti], ti, resName(p, j)))
 		}
 		b.WriteString("\tout.R = []uint64{" + strings.Join(hs, ", ") + "}\n")
 	}
@@ -642,7 +659,7 @@ func genericArgs(p *Program) string {
 	}
 	var a []string
 	for j := range p.Flow.Results {
-		a = append(a, fmt.Sprintf("&r%d", j))
+		a = append(a, "&"+resName(p, j))
 	}
 	return strings.Join(a, ", ")
 }
